@@ -1212,3 +1212,329 @@ Proof.
   { split; [vcr|]. split; [discriminate|exact I]. }
   left. split; [reflexivity|]. vm_compute. discriminate.
 Qed.
+
+(* ================= a task that has not started yet (C03 item 2, first part) ================= *)
+Section NewTask.
+  Variable t : tid.
+
+  (* t was spawned and has not run yet: its first step is in the ready queue *)
+  Record NInv (s : st) : Prop := {
+    ni_reach : reach_ok s;
+    ni_run : running s <> Some t;
+    ni_alloc : t < ntask s;
+    ni_ctl : k_ctl (tasks s t) = CNew;
+    ni_started : k_started (tasks s t) = false;
+    ni_waiter : k_waiter (tasks s t) = None;
+    ni_done : k_done (tasks s t) = None;
+    ni_step : In (HStep t) (ready s)
+  }.
+
+  (* window ops for a task without a wait: acts of others, or head runs that do not resume t *)
+  Definition wopn (s : st) (o : op) : Prop :=
+    (other_act t o /\ op_ok s o = true) \/
+    (exists h q, o = ARun h /\ ready s = h :: q /\ op_ok s o = true /\ other_head t h).
+
+  Lemma ninv_next XE X a a' b :
+    NInv a -> tasks a' = tasks a -> ntask a' = ntask a -> KInv a' -> aw t XE X a' b -> reach_ok b ->
+    running a' <> Some t -> (In (HStep t) (ready a) -> In (HStep t) (ready a')) ->
+    NInv b /\ (k_must (tasks a t) = true -> k_must (tasks b t) = true).
+  Proof.
+    intros N Et En K W Rb Ra Keep.
+    assert (Hw : k_waiter (tasks a' t) = None) by (rewrite Et; apply N).
+    pose proof (proj2 (aw_t _ _ _ _ _ W K) Hw) as By. pose proof (bm_core _ _ _ By) as Ec. rewrite Et in Ec.
+    split; [|intros Hm; apply (bm_must _ _ _ By); now rewrite Et].
+    constructor.
+    - exact Rb.
+    - apply (aw_run _ _ _ _ _ W Ra).
+    - pose proof (aw_nt _ _ _ _ _ W) as Nt. pose proof (ni_alloc _ N). lia.
+    - rewrite (tcore_ctl _ _ Ec). apply N.
+    - rewrite (tcore_started _ _ Ec). apply N.
+    - rewrite (tcore_waiter _ _ Ec). apply N.
+    - rewrite (tcore_done _ _ Ec). apply N.
+    - apply (rsh_keep a' b); [apply W|apply Keep, N|reflexivity].
+  Qed.
+
+  Lemma nstep_act a o :
+    NInv a -> other_act t o -> op_ok a o = true ->
+    NInv (fst (step a o)) /\ (k_must (tasks a t) = true -> k_must (tasks (fst (step a o)) t) = true) /\
+    rsh a (fst (step a o)).
+  Proof.
+    intros N Ho Hok. pose proof (aw_step_act t a o Ho (ni_alloc _ N)) as W.
+    assert (K : KInv a) by (destruct (ni_reach _ N) as [ops [_ ->]]; apply reach_kinv).
+    destruct (ninv_next _ _ a a _ N eq_refl eq_refl K W) as [N' M]; auto.
+    - apply reach_ok_step; [apply N|exact Hok].
+    - apply N.
+    - split; [exact N'|]. split; [exact M|apply W].
+  Qed.
+
+  Lemma nstep_head a h r :
+    NInv a -> ready a = h :: r -> other_head t h -> h <> HStep t -> op_ok a (ARun h) = true ->
+    NInv (fst (step a (ARun h))) /\ (k_must (tasks a t) = true -> k_must (tasks (fst (step a (ARun h))) t) = true) /\
+    rshT r (fst (step a (ARun h))).
+  Proof.
+    intros N E Ho Hne Hok. pose proof (aw_run_head t a h r E Ho) as W.
+    assert (K : KInv (set_ready a r)).
+    { apply (KInv_kq a); [destruct (ni_reach _ N) as [ops [_ ->]]; apply reach_kinv|apply kq_tasks_same; reflexivity]. }
+    destruct (ninv_next _ _ a (set_ready a r) _ N eq_refl eq_refl K W) as [N' M]; auto.
+    - apply reach_ok_step; [apply N|exact Hok].
+    - apply N.
+    - rewrite E. intros [H|H]; [congruence|exact H].
+    - split; [exact N'|]. split; [exact M|apply (aw_q _ _ _ _ _ W)].
+  Qed.
+
+End NewTask.
+
+(* ---------------- the running task is never touched by a delivery ---------------- *)
+Lemma task_cancel_other s u o t : u <> t -> tasks (task_cancel s u o) t = tasks s t.
+Proof.
+  intros Hu. unfold task_cancel. destruct (k_done (tasks s u)); [reflexivity|].
+  destruct (k_waiter (tasks s u)) as [f|].
+  - destruct (fut_pending _ f).
+    + rewrite fut_complete_tasks. cbn. unfold upd. destruct (Nat.eqb_spec t u); [congruence|reflexivity].
+    + cbn. unfold upd. destruct (Nat.eqb_spec t u); [congruence|reflexivity].
+  - cbn. unfold upd. destruct (Nat.eqb_spec t u); [congruence|reflexivity].
+Qed.
+
+Lemma deliver_top_running s c t : running s = Some t -> tasks (deliver_top s c) t = tasks s t.
+Proof.
+  intros Hr. unfold deliver_top.
+  apply (deliver_inv (fun a => tasks a t = tasks s t /\ running a = Some t) c); [| | |now split].
+  - intros self a r u [Ea Ra]. pose proof (kframe_deliver_task self c a r u) as K.
+    split; [|now rewrite (kf_running _ _ K)].
+    unfold deliver_task. destruct (k_done (tasks a u)); [exact Ea|]. destruct (k_must (tasks a u)); [exact Ea|].
+    destruct (Nat.eq_dec u t) as [->|Hu].
+    + rewrite Ra. cbn [opt_eqb]. rewrite Nat.eqb_refl. cbn [negb andb]. exact Ea.
+    + destruct (_ && _); [|exact Ea].
+      destruct (match k_waiter (tasks a u) with Some f => fut_pending a f | None => true end); [|exact Ea].
+      cbn [fst]. set (a1 := task_cancel a u (S c)).
+      assert (E1 : tasks a1 t = tasks a t) by now apply task_cancel_other.
+      destruct (opt_eqb (s_host (scopes a1 c)) u); cbn [tasks upd_scope set_scopes]; now rewrite E1.
+  - intros a x b [Ea Ra]. now split.
+  - intros a h [Ea Ra]. now split.
+Qed.
+
+Lemma scope_cancel_running s c b t : running s = Some t -> tasks (scope_cancel s c b) t = tasks s t.
+Proof.
+  intros Hr. unfold scope_cancel. destruct (s_cancelled (scopes s c)); [reflexivity|].
+  set (s2 := upd_scope (cancel_timeout s c) c _).
+  assert (E2 : tasks s2 = tasks s /\ running s2 = running s).
+  { unfold s2, cancel_timeout. destruct (s_timeout (scopes s c)); now split. }
+  destruct E2 as [E2 R2]. destruct (s_host (scopes s2 c)); [|now rewrite E2].
+  rewrite deliver_top_running; [now rewrite E2|now rewrite R2].
+Qed.
+
+Lemma scope_cancel_slot s c b : running (scope_cancel s c b) = running s.
+Proof.
+  unfold scope_cancel. destruct (s_cancelled (scopes s c)); [reflexivity|].
+  set (s2 := upd_scope (cancel_timeout s c) c _).
+  assert (R2 : running s2 = running s) by (unfold s2, cancel_timeout; destruct (s_timeout (scopes s c)); reflexivity).
+  destruct (s_host (scopes s2 c)); [|exact R2]. now rewrite (kf_running _ _ (kframe_deliver_top s2 c)).
+Qed.
+
+Lemma scope_enter_own s c t :
+  running s = Some t -> s_active (scopes s c) = false ->
+  tasks (fst (scope_enter s c t)) t = tk_cur (Some c) (tasks s t).
+Proof.
+  intros Hr Ha. rewrite (scope_enter_eq s c t Ha).
+  assert (R3 : running (enter_s3 s c t) = Some t) by (unfold enter_s3; destruct (k_cur (tasks s t)); exact Hr).
+  assert (E5 : tasks (enter_s5 s c t) t = tk_cur (Some c) (tasks s t) /\ running (enter_s5 s c t) = Some t).
+  { unfold enter_s5. cbn [tasks running upd_scope set_scopes]. unfold scope_timeout.
+    destruct (s_deadline (scopes (enter_s3 s c t) c)).
+    - destruct (Z.leb z (now (enter_s3 s c t))).
+      + rewrite (scope_cancel_running _ c true t R3), enter_s3_task, Nat.eqb_refl. split; [reflexivity|].
+        now rewrite scope_cancel_slot.
+      + cbn. rewrite enter_s3_task, Nat.eqb_refl. now split.
+    - rewrite enter_s3_task, Nat.eqb_refl. now split. }
+  destruct E5 as [E5 R5]. destruct (s_cancelled _); [|exact E5]. now rewrite (deliver_top_running _ c t R5).
+Qed.
+
+Lemma park_fields s t : k_must (tasks s t) = false ->
+  tasks (park s t) t = tk_ctl CIdle (tk_waiter (Some (nfut s)) (tasks s t)) /\
+  f_st (futs (park s t) (nfut s)) = FPend.
+Proof.
+  intros Hm. set (s1 := fst (new_fut s)).
+  assert (E : f_st (futs s1 (nfut s)) = FPend) by (unfold s1; cbn; unfold upd; now rewrite Nat.eqb_refl).
+  assert (Es : suspend_on s1 t (nfut s) =
+               upd_task (upd_fut s1 (nfut s) (fun x => mkFut (f_st x) (Some t))) t (tk_waiter (Some (nfut s)))).
+  { unfold suspend_on. rewrite E. change (tasks s1 t) with (tasks s t). now rewrite Hm. }
+  assert (Ep : park s t = upd_task (suspend_on s1 t (nfut s)) t (tk_ctl CIdle)) by reflexivity.
+  rewrite Ep, Es. split.
+  - cbn [tasks upd_task set_tasks upd_fut set_futs]. unfold upd. rewrite !Nat.eqb_refl. reflexivity.
+  - cbn [futs upd_task set_tasks upd_fut set_futs]. unfold upd at 1. rewrite Nat.eqb_refl. cbn [f_st]. exact E.
+Qed.
+
+Section NewTask2.
+  Variable t : tid.
+
+  (* the first step of a task with no request recorded: it starts and parks at its first decision point, waiting
+     on a fresh pending future; with a (native) request recorded it ends cancelled without running *)
+  Lemma first_step a r :
+    NInv t a -> ready a = HStep t :: r ->
+    let b := fst (step a (ARun (HStep t))) in
+    (k_must (tasks a t) = false ->
+       k_started (tasks b t) = true /\ k_ctl (tasks b t) = CIdle /\ k_done (tasks b t) = None /\
+       k_must (tasks b t) = false /\ running b = None /\
+       exists fp, k_waiter (tasks b t) = Some fp /\ f_st (futs b fp) = FPend) /\
+    (k_must (tasks a t) = true ->
+       k_ctl (tasks b t) = CDone /\ exists e, k_done (tasks b t) = Some (OCanc (ECancel e))).
+  Proof.
+    intros N E. cbv zeta. rewrite (step_run_head a (HStep t) r E). set (a' := set_ready a r).
+    unfold resume. pose proof (incoming_ctl a' t None) as Ec. pose proof (incoming_task a' t None t) as Et.
+    rewrite Nat.eqb_refl in Et.
+    assert (Ei : snd (incoming a' t None) = if k_must (tasks a t) then Some (ECancel (k_msg (tasks a t))) else None).
+    { unfold incoming. cbn [snd]. change (tasks a' t) with (tasks a t). destruct (k_must (tasks a t)); reflexivity. }
+    assert (Er : running (fst (incoming a' t None)) = Some t) by reflexivity.
+    assert (Es : scopes (fst (incoming a' t None)) = scopes a) by reflexivity.
+    destruct (incoming a' t None) as [s inc]. cbn [fst snd] in *. subst inc.
+    rewrite Ec. change (tasks a' t) with (tasks a t) in *. rewrite (ni_ctl _ _ N).
+    set (s1 := upd_task s t (tk_started true)).
+    assert (E1 : tasks s1 t = tk_started true (tk_must false (k_msg (tasks a t)) (tk_waiter None (tasks a t)))).
+    { unfold s1. cbn. unfold upd. rewrite Nat.eqb_refl. now rewrite Et. }
+    split; intros Hm; rewrite Hm.
+    - cbn [fst].
+      set (s2 := match k_group (tasks s1 t) with Some _ => fst (scope_enter s1 (k_hscope (tasks s1 t)) t) | None => s1 end).
+      assert (E2 : exists x, tasks s2 t = tk_cur x (tasks s1 t)).
+      { unfold s2. destruct (k_group (tasks s1 t)) eqn:Eg; [|exists (k_cur (tasks s1 t)); now destruct (tasks s1 t)].
+        exists (Some (k_hscope (tasks s1 t))). apply scope_enter_own; [exact Er|].
+        change (scopes s1) with (scopes s). rewrite Es. rewrite E1. cbn [k_hscope tk_started tk_must tk_waiter].
+        apply (new_hscope_inactive a t (ni_reach _ _ N) (ni_ctl _ _ N)). }
+      destruct E2 as [x E2].
+      assert (Hm2 : k_must (tasks s2 t) = false) by (rewrite E2, E1; reflexivity).
+      destruct (park_fields s2 t Hm2) as [P1 P2].
+      cbn [tasks running set_running futs]. rewrite P1, E2, E1. cbn.
+      repeat split; try apply N. exists (nfut s2). split; [reflexivity|exact P2].
+    - cbn [fst]. unfold finish_task. cbn [is_cancel].
+      destruct (k_group (tasks s1 t)); cbn; unfold upd; rewrite !Nat.eqb_refl; cbn; (split; [reflexivity|eauto]).
+  Qed.
+End NewTask2.
+
+Section NewTask3.
+  Variable t : tid.
+
+  (* every op is a window op until t's first step is run *)
+  Fixpoint wokn (s : st) (ops : list op) : Prop :=
+    match ops with
+    | [] => True
+    | o :: r => o = ARun (HStep t) \/ (wopn t s o /\ o <> ARun (HStep t) /\ wokn (fst (step s o)) r)
+    end.
+
+  (* the first step of t (a queue position below the iteration's length) is run in this iteration, whatever else
+     happens; a request recorded before stays recorded *)
+  Lemma phase_new n s ops s' : wcyc n s ops s' -> forall pre post,
+    wokn s ops -> NInv t s -> ready s = pre ++ HStep t :: post -> length pre < n ->
+    exists si q, In (si, ARun (HStep t)) (trace s ops) /\ NInv t si /\ ready si = HStep t :: q /\
+                 (k_must (tasks s t) = true -> k_must (tasks si t) = true).
+  Proof.
+    induction 1 as [s|n s h q ops s' E Hc IH|n s o ops s' Hn Hc IH|n s E]; intros pre post Wk N Er Hl.
+    - lia.
+    - cbn [wokn] in Wk. destruct Wk as [Eo|[[[Ho _]|[h' [q' [Eo [Er' [Hok Hoh]]]]]] [Hne Wk']]].
+      + inversion Eo; subst h. exists s, q. split; [now left|]. split; [exact N|]. split; [exact E|auto].
+      + destruct Ho.
+      + inversion Eo; subst h'. assert (Hh : h <> HStep t) by (intros ->; now apply Hne).
+        destruct pre as [|h1 pre]; cbn [app] in Er; rewrite E in Er; inversion Er; subst; [now elim Hh|].
+        destruct (nstep_head t s h1 _ N E Hoh Hh Hok) as [N' [M Q]].
+        destruct Q as [P [new [Eq HP]]]. rewrite filter_app in Eq. cbn [filter] in Eq. rewrite (HP (HStep t) eq_refl) in Eq.
+        rewrite <- app_assoc in Eq. cbn [app] in Eq.
+        pose proof (filter_len P pre) as Fl. cbn [length] in Hl.
+        destruct (IH (filter P pre) (filter P post ++ new) Wk' N' Eq ltac:(lia)) as [si [q2 [Hi [Ni [Eri Mi]]]]].
+        exists si, q2. split; [now right|]. split; [exact Ni|]. split; [exact Eri|]. intros Hm. apply Mi, M, Hm.
+    - cbn [wokn] in Wk. destruct Wk as [Eo|[[[Ho Hok]|[h' [q' [Eo _]]]] [Hne Wk']]]; [now elim (Hn (HStep t))| |now elim (Hn h')].
+      destruct (nstep_act t s o N Ho Hok) as [N' [M [P [new [Eq HP]]]]].
+      rewrite Er, filter_app in Eq. cbn [filter] in Eq. rewrite (HP (HStep t) eq_refl) in Eq.
+      rewrite <- app_assoc in Eq. cbn [app] in Eq. pose proof (filter_len P pre) as Fl.
+      destruct (IH (filter P pre) (filter P post ++ new) Wk' N' Eq ltac:(lia)) as [si [q2 [Hi [Ni [Eri Mi]]]]].
+      exists si, q2. split; [now right|]. split; [exact Ni|]. split; [exact Eri|]. intros Hm. apply Mi, M, Hm.
+    - rewrite E in Er. destruct pre; discriminate.
+  Qed.
+End NewTask3.
+
+(* C03 new_task_cancelled, first part (proved).  A freshly spawned task t (frame CNew, its first step HStep t in the
+   ready queue) at the boundary of an iteration.  Whatever the other tasks and the environment do (wokn: any act of
+   others, any head-of-queue callback that does not resume t), t's first step is run within this iteration.  If a
+   (native) request was recorded on it before, the step ends the task as cancelled without running its body;
+   otherwise the task starts and is then parked at its first decision point on a fresh pending future with no
+   request recorded - i.e. it satisfies the task-side premises of C03_cancel_latency_any_activity, which bounds the
+   rest by two more iterations for whatever cancelled scope it reaches then (AnyIO deliveries skip a task that has
+   not started, so the scope's delivery callback is still scheduled: C03_delivery_alive). *)
+Theorem new_task_first_step t s ops s' :
+  reach_ok s -> running s <> Some t -> k_ctl (tasks s t) = CNew -> k_started (tasks s t) = false ->
+  k_waiter (tasks s t) = None -> k_done (tasks s t) = None -> In (HStep t) (ready s) -> t < ntask s ->
+  wcyc (length (ready s)) s ops s' -> wokn t s ops ->
+  exists si, In (si, ARun (HStep t)) (trace s ops) /\ reach_ok si /\
+    let b := fst (step si (ARun (HStep t))) in
+    (k_must (tasks s t) = true -> k_ctl (tasks b t) = CDone /\ exists e, k_done (tasks b t) = Some (OCanc (ECancel e))) /\
+    (k_must (tasks si t) = false ->
+       reach_ok b /\ running b <> Some t /\ k_started (tasks b t) = true /\ k_done (tasks b t) = None /\
+       k_must (tasks b t) = false /\ wait_ctl (k_ctl (tasks b t)) = true /\
+       exists fp, k_waiter (tasks b t) = Some fp /\ f_st (futs b fp) = FPend).
+Proof.
+  intros R Hr Hc Hs Hw Hd Hin At C Wk.
+  assert (N : NInv t s) by (constructor; assumption).
+  destruct (in_split _ _ Hin) as [pre [post E]].
+  assert (Hl : length pre < length (ready s)) by (rewrite E, app_length; cbn; lia).
+  destruct (phase_new t _ s ops s' C pre post Wk N E Hl) as [si [q [Hi [Ni [Eri Mi]]]]].
+  exists si. split; [exact Hi|]. split; [apply Ni|]. cbv zeta.
+  destruct (first_step t si q Ni Eri) as [F0 F1]. split.
+  - intros Hm. apply F1, Mi, Hm.
+  - intros Hm. destruct (F0 Hm) as [A1 [A2 [A3 [A4 [A5 [fp [A6 A7]]]]]]].
+    split; [apply reach_ok_step; [apply Ni|reflexivity]|]. split; [rewrite A5; discriminate|].
+    split; [exact A1|]. split; [exact A3|]. split; [exact A4|]. split; [now rewrite A2|]. now exists fp.
+Qed.
+
+(* the full statement of new_task_cancelled (NOT proved; the proved part is new_task_first_step): three
+   iterations in which every op that does not resume t is a window op; then t has been resumed with a cancellation,
+   or is done, or was at some moment not effectively cancelled.  What is missing: carrying "t reaches some
+   cancelled hosted scope" through the ops before its first step (an unstarted task is skipped by deliveries, so
+   the reached scope may change without a request being recorded) and through its own first step (which enters
+   the handle scope), after which C03_cancel_latency_any_activity applies. *)
+Definition resumes (t : tid) (h : handle) : Prop := h = HStep t \/ exists g, h = HWake t g.
+
+Fixpoint wokt (t : tid) (s : st) (ops : list op) : Prop :=
+  match ops with
+  | [] => True
+  | o :: r => ((exists h, o = ARun h /\ resumes t h) \/ wopn t s o) /\ wokt t (fst (step s o)) r
+  end.
+
+Definition new_task_cancelled_stmt : Prop :=
+  forall t c s ops1 ops2 ops3 s1 s2 s3,
+    reach_ok s -> running s <> Some t -> k_ctl (tasks s t) = CNew -> k_started (tasks s t) = false ->
+    k_waiter (tasks s t) = None -> k_done (tasks s t) = None -> In (HStep t) (ready s) ->
+    s_cancelled (scopes s c) = true -> s_host (scopes s c) <> None -> reaches s t c ->
+    wcyc (length (ready s)) s ops1 s1 -> wcyc (length (ready s1)) s1 ops2 s2 -> wcyc (length (ready s2)) s2 ops3 s3 ->
+    wokt t s (ops1 ++ ops2 ++ ops3) ->
+    (exists si h o, In (si, ARun h) (trace s (ops1 ++ ops2 ++ ops3)) /\ resumes t h /\
+                    snd (step si (ARun h)) = RExc (ECancel o)) \/
+    (exists si, In si (states s (ops1 ++ ops2 ++ ops3)) /\ k_done (tasks si t) <> None) \/
+    (exists si, In si (states s (ops1 ++ ops2 ++ ops3)) /\
+                eff_cancelled_from (nscope si) si (k_cur (tasks si t)) = false).
+
+(* non-vacuity of new_task_first_step: a child spawned into a task group whose scope is already cancelled; the
+   delivery callback runs first and skips the unstarted child, then the child's first step *)
+Definition nt_pre : list op := [ANewRoot; AGroupNew 1; AGroupEnter 1 1; ACancel 1 1; ASpawn 1 1].
+Definition nt_ops : list op := [ARun (HDeliver 1); ARun (HStep 2)].
+
+Example nt_premises :
+  let s := final step init nt_pre in
+  reach_ok s /\ running s <> Some 2 /\ k_ctl (tasks s 2) = CNew /\ k_started (tasks s 2) = false /\
+  k_waiter (tasks s 2) = None /\ k_done (tasks s 2) = None /\ In (HStep 2) (ready s) /\ 2 < ntask s /\
+  s_cancelled (scopes s 1) = true /\ reaches s 2 1 /\ k_must (tasks s 2) = false /\
+  wokn 2 s nt_ops /\ exists s', wcyc (length (ready s)) s nt_ops s'.
+Proof.
+  cbv zeta. set (s := final step init nt_pre).
+  assert (R : reach_ok s) by (exists nt_pre; split; [vcr|reflexivity]).
+  refine (conj R _). repeat (match goal with |- _ /\ _ => split end).
+  - assert (E : running s = None) by vcr. rewrite E. discriminate.
+  - vcr.
+  - vcr.
+  - vcr.
+  - vcr.
+  - assert (E : ready s = [HDeliver 1; HStep 2]) by vcr. rewrite E. right. now left.
+  - assert (E : ntask s = 3) by vcr. rewrite E. lia.
+  - vcr.
+  - split; [vcr|]. exists 1. split; [vcr|apply vis_here].
+  - vcr.
+  - unfold nt_ops. cbn [wokn]. right. split; [|split; [discriminate|now left]].
+    right. exists (HDeliver 1), [HStep 2]. split; [reflexivity|]. split; [vcr|]. split; [vcr|exact I].
+  - eexists. assert (E : length (ready s) = 2) by vcr. rewrite E. unfold nt_ops.
+    eapply wc_head; [vcr|]. eapply wc_head; [vcr|]. apply wc_nil.
+Qed.
